@@ -135,7 +135,7 @@ func instrCount(fn *ssa.Function) int {
 
 func (x *fnExec) staticCall(fr *frame, st *State, ci ssa.CallInstruction, res ssa.Value, fn *ssa.Function, args []Val, fresh func(string) Val) {
 	key := funcKey(fn)
-	inPkg := fn.Pkg == x.P.SSA || (fn.Origin() != nil && fn.Origin().Pkg == x.P.SSA)
+	inPkg := x.P.inPackage(fn)
 	if !inPkg {
 		x.atCall(fr, st, ci, extName(fn), args)
 		x.external(fr, st, ci, res, fn, args, fresh)
@@ -503,8 +503,30 @@ func (p *Program) effectsOf(fn *ssa.Function) *effectSet {
 	return e
 }
 
+func (p *Program) inPackage(fn *ssa.Function) bool {
+	if fn.Pkg == p.SSA || (fn.Origin() != nil && fn.Origin().Pkg == p.SSA) {
+		return true
+	}
+	// synthetic wrappers (promoted methods, bound methods) of package types have no package of their own
+	if fn.Pkg == nil && fn.Synthetic != "" && len(fn.Blocks) > 0 {
+		if fn.Signature.Recv() != nil {
+			rt := fn.Signature.Recv().Type()
+			if pt, ok := rt.(*types.Pointer); ok {
+				rt = pt.Elem()
+			}
+			if n, ok := rt.(*types.Named); ok && n.Obj().Pkg() == p.Pkg.Types {
+				return true
+			}
+		}
+		if fn.Parent() != nil {
+			return p.inPackage(fn.Parent())
+		}
+	}
+	return false
+}
+
 func (p *Program) effectsPass(fn *ssa.Function, e *effectSet) {
-	inPkg := fn.Pkg == p.SSA || (fn.Origin() != nil && fn.Origin().Pkg == p.SSA)
+	inPkg := p.inPackage(fn)
 	if !inPkg {
 		if fn.Pkg != nil && pureExternalPkgs[fn.Pkg.Pkg.Path()] {
 			// externals write only through pointers/slices we pass them; handled at call sites for known ones
@@ -621,7 +643,7 @@ func (p *Program) externalWriteEffects(f *ssa.Function, cc *ssa.CallCommon, e *e
 	switch {
 	case strings.Contains(name, "encoding/binary") && strings.Contains(name, "Put"),
 		strings.HasPrefix(name, "io.ReadFull"), strings.Contains(name, "rand.Read"), strings.Contains(name, "(*math/rand.Rand).Read"):
-		e.keys["E:byte"] = true
+		e.keys["E:uint8"] = true
 		e.keys["E:uint8"] = true
 	case strings.HasPrefix(name, "sort."), strings.HasPrefix(name, "slices.Sort"):
 		for _, a := range cc.Args {
@@ -772,3 +794,54 @@ func (x *fnExec) havocKeys(st *State, exact map[string]bool, prefixes []string) 
 	st.epoch = st.epoch.withOverride(exact, prefixes, tag)
 }
 
+
+// explainTop prints why a function's effect set is unknown (debugging aid).
+func (p *Program) explainTop(fn *ssa.Function, seen map[string]bool, ind string) {
+	k := fn.String()
+	if seen[k] {
+		return
+	}
+	seen[k] = true
+	for _, b := range fn.Blocks {
+		for _, in := range b.Instrs {
+			ci, ok := in.(ssa.CallInstruction)
+			if !ok {
+				continue
+			}
+			if _, isGo := in.(*ssa.Go); isGo {
+				continue
+			}
+			cc := ci.Common()
+			e := &effectSet{keys: map[string]bool{}}
+			if cc.IsInvoke() {
+				p.invokeEffects(cc, e)
+				if e.top {
+					fmt.Printf("%s%s: invoke %s.%s -> top\n", ind, fn.Name(), typeName(cc.Value.Type()), cc.Method.Name())
+					if iface, ok := cc.Value.Type().Underlying().(*types.Interface); ok {
+						for _, f := range p.implementers(iface, cc.Method.Name()) {
+							if p.effectsOf(f).top {
+								p.explainTop(f, seen, ind+"  ")
+							}
+						}
+					}
+				}
+				continue
+			}
+			switch f := cc.Value.(type) {
+			case *ssa.Function:
+				if p.effectsOf(f).top {
+					fmt.Printf("%s%s: call %s -> top\n", ind, fn.Name(), f.String())
+					p.explainTop(f, seen, ind+"  ")
+				}
+			case *ssa.Builtin:
+			case *ssa.MakeClosure:
+				if cf, ok := f.Fn.(*ssa.Function); ok && p.effectsOf(cf).top {
+					fmt.Printf("%s%s: closure %s -> top\n", ind, fn.Name(), cf.String())
+					p.explainTop(cf, seen, ind+"  ")
+				}
+			default:
+				fmt.Printf("%s%s: dynamic call %s -> top\n", ind, fn.Name(), cc.Value.String())
+			}
+		}
+	}
+}
